@@ -131,6 +131,17 @@ CLAIMED = {
              'image when the foot is outside [vMin, vMax]; the periodic loop terminates within the bound.',
         design_ref='DESIGN.md 4 C11',
         note=TRUST + 'exp/tanh/sqrt uninterpreted with range facts. Grid-level use of the gradient table is checked under C05. Bounds: listed v spaces.'),
+    'C12': dict(
+        category='proof',
+        technique='symbolic execution of the real PoloidalAdvection.step with the whole distribution symbolic for a listed exact family of potentials and time steps; z3 linear identities against an independent exact Heun/interpolation oracle',
+        text='Partial claim in exact arithmetic, for all f: with a constant potential the step is the identity; with phi = omega r^2/2 it '
+             'is the exact rigid rotation by omega dt/B0 in both the explicit and the implicit scheme (whose iteration ends after its '
+             'first pass); with r-independent and generic rational spline potentials (explicit scheme) every new nodal value is the 2-D '
+             'oracle interpolant of f at the foot of the independently implemented Heun characteristic (theta mod 2 pi), and feet outside '
+             'the radial domain take zero / the equilibrium at the inner radius / the equilibrium at the foot, in both boundary modes.',
+        design_ref='DESIGN.md 4 C12',
+        note=TRUST + 'NOT decided: arbitrary potentials, third-order agreement of the two schemes, termination of the implicit iteration for general potentials. '
+                     'exp/tanh/sqrt uninterpreted.'),
     'C13': dict(
         category='proof',
         technique='symbolic execution of the real ParallelGradient with a fully symbolic potential; z3 linear real arithmetic against an independent formula-level oracle',
